@@ -22,6 +22,7 @@ EXTRA_STUBS = dyn.EXTRA_STUBS
 REQUIRED_WITNESSES = ['success_exploit', 'success_privesc', 'failure', 'success_subnet_scan']
 STUBS, ASSUMPTIONS, BOUNDS = common.STUBS, common.ASSUMPTIONS, common.BOUNDS
 describe = common.describe
+prefer = common.prefer
 
 
 def queries(tier, seed=0):
